@@ -253,7 +253,7 @@ func (c *Config) flattenedKeys(visiting map[*Config]bool, opts []Option) []strin
 }
 
 func (f *fields) get(name string) (value, bool) {
-	if f.d == nil {
+	if f == nil || f.d == nil {
 		return nil, false
 	}
 	v, found := f.d[name]
@@ -261,14 +261,23 @@ func (f *fields) get(name string) (value, bool) {
 }
 
 func (f *fields) dict() map[string]value {
+	if f == nil {
+		return nil
+	}
 	return f.d
 }
 
 func (f *fields) array() []value {
+	if f == nil {
+		return nil
+	}
 	return f.a
 }
 
 func (f *fields) del(name string) bool {
+	if f == nil {
+		return false
+	}
 	_, exists := f.d[name]
 	if exists {
 		delete(f.d, name)
@@ -277,6 +286,9 @@ func (f *fields) del(name string) bool {
 }
 
 func (f *fields) delAt(i int) bool {
+	if f == nil {
+		return false
+	}
 	a := f.a
 	if i < 0 || len(a) <= i {
 		return false
